@@ -41,9 +41,15 @@ def run_variant(v: dict) -> dict:
         for path, old, new in v["edits"]:
             p = os.path.join(tmp, path)
             src = open(p).read()
-            if src.count(old) != 1:
-                return {"name": v["name"], "status": "EDIT-FAILED", "detail": f"{path}: pattern occurs {src.count(old)} times"}
-            open(p, "w").write(src.replace(old, new))
+            if callable(old):
+                out = old(src)
+                if out is None or out == src:
+                    return {"name": v["name"], "status": "EDIT-FAILED", "detail": f"{path}: programmatic edit did not apply"}
+                open(p, "w").write(out)
+            else:
+                if src.count(old) != 1:
+                    return {"name": v["name"], "status": "EDIT-FAILED", "detail": f"{path}: pattern occurs {src.count(old)} times"}
+                open(p, "w").write(src.replace(old, new))
             try:
                 compile(open(p).read(), p, "exec")
             except SyntaxError as e:
